@@ -7,7 +7,7 @@
    statement = arbitrary element position; the surrounding declarations of other properties are arbitrary
    (`silent p x` only says that the rest of the element does not mention p). *)
 From Coq Require Import String Permutation.
-From RV Require Import Model.Base Gen.SvgTables Model.Cascade Proofs.Cascade.
+From RV Require Import Model.Base Gen.SvgTables Gen.Units Model.Cascade Proofs.Cascade.
 
 (* What `attribute(a)` sees after parse_svg_element = a fold of the two-rule machine `step` over the
    declarations that mention `a` (attributes first-wins, then CSS in rule order, then style). *)
@@ -192,22 +192,24 @@ Proof. intro a. split; [apply default_table_ok | apply class_table_ok]. Qed.
 Print Assumptions C09_tables_coherent.
 
 Local Open Scope Q_scope.
-Theorem C09_unit_equiv : forall n dpi,
-  len_In n dpi == len_Px (n * dpi) dpi /\
-  len_Cm (n * (254 # 100)) dpi == len_In n dpi /\
-  len_Mm (n * (254 # 10)) dpi == len_In n dpi /\
-  len_Pt (n * 72) dpi == len_In n dpi /\
-  len_Pc (n * 6) dpi == len_In n dpi /\
-  len_Pt (n * 12) dpi == len_Pc n dpi /\
-  len_Mm (n * 10) dpi == len_Cm n dpi /\
-  (fs_In n dpi == len_In n dpi /\ fs_Cm n dpi == len_Cm n dpi /\ fs_Mm n dpi == len_Mm n dpi /\
-   fs_Pt n dpi == len_Pt n dpi /\ fs_Pc n dpi == len_Pc n dpi).
-Proof.
-  intros. repeat apply conj;
-    [apply unit_in | apply unit_cm | apply unit_mm | apply unit_pt | apply unit_pc | apply unit_pt_pc
-     | apply unit_mm_cm | apply unit_font_size_agrees ..].
-Qed.
+(* `convert_abs` is the source-derived table of units.rs::convert_length (Gen/Units.v) *)
+Theorem C09_unit_equiv : forall n dpi fs,
+  oq_eq (convert_abs UIn n dpi fs) (convert_abs UPx (n * dpi) dpi fs) /\
+  oq_eq (convert_abs UCm (n * (254 # 100)) dpi fs) (convert_abs UIn n dpi fs) /\
+  oq_eq (convert_abs UMm (n * (254 # 10)) dpi fs) (convert_abs UIn n dpi fs) /\
+  oq_eq (convert_abs UPt (n * 72) dpi fs) (convert_abs UIn n dpi fs) /\
+  oq_eq (convert_abs UPc (n * 6) dpi fs) (convert_abs UIn n dpi fs) /\
+  oq_eq (convert_abs UPt (n * 12) dpi fs) (convert_abs UPc n dpi fs) /\
+  oq_eq (convert_abs UMm (n * 10) dpi fs) (convert_abs UCm n dpi fs) /\
+  oq_eq (convert_abs UNone n dpi fs) (convert_abs UPx n dpi fs).
+Proof. exact unit_equiv. Qed.
 Print Assumptions C09_unit_equiv.
+
+(* font-size is resolved by its own copy of the table (units.rs::resolve_font_size): same factors *)
+Theorem C09_unit_font_size : forall u n dpi parent,
+  u <> UPercent -> oq_eq (convert_abs u n dpi parent) (Some (fs_step dpi parent (u, n))).
+Proof. exact unit_font_size_agrees. Qed.
+Print Assumptions C09_unit_font_size.
 Local Close Scope Q_scope.
 
 (* ---- non-vacuity -------------------------------------------------------------------------------- *)
